@@ -50,6 +50,10 @@ type Step struct {
 	N      int    `json:"n,omitempty"`
 	Strong bool   `json:"strong,omitempty"`
 	Lazy   bool   `json:"lazy,omitempty"` // restore: the closed watches are not released by their owners until later
+	// par: the operations of Par run concurrently against the store; Sched decides, at every yield point
+	// (start, waiting for the event lock, committed-but-not-yet-published), which of them goes on
+	Par   []Step `json:"par,omitempty"`
+	Sched []int  `json:"sched,omitempty"`
 }
 
 type Plan struct {
@@ -89,7 +93,26 @@ func (World) Generate(rng *rand.Rand, tier string, runIdx uint64) simkit.Plan {
 	pick := func(xs []string) string { return xs[rng.IntN(len(xs))] }
 	for len(p.Steps) < n {
 		c := rng.IntN(nclients)
-		switch simkit.Weighted(rng, []int{26, 10, 16, 4, 3, 8, 14, 2, 12, 2, 3}) {
+		switch simkit.Weighted(rng, []int{26, 10, 16, 4, 3, 8, 14, 2, 12, 2, 3, 9}) {
+		case 11:
+			st := Step{Op: "par"}
+			shared := pick(names)
+			for j, n := 0, 2+rng.IntN(2); j < n; j++ {
+				name := shared
+				if simkit.Chance(rng, 40) {
+					name = pick(names)
+				}
+				if simkit.Chance(rng, 55) {
+					st.Par = append(st.Par, Step{Op: "write", Name: name, NS: "default", Data: fmt.Sprintf("p%d", rng.IntN(1000)),
+						Vsn: pick([]string{"read", "read", "read", "empty", "peer", "stale"}), UID: pick([]string{"read", "read", "new"})})
+				} else {
+					st.Par = append(st.Par, Step{Op: "delete", Name: name, NS: "default", Vsn: pick([]string{"read", "read", "read", "stale"})})
+				}
+			}
+			for j := 0; j < 12; j++ {
+				st.Sched = append(st.Sched, rng.IntN(6))
+			}
+			p.Steps = append(p.Steps, st)
 		case 0:
 			s := Step{Op: "write", C: c, Name: pick(names), NS: pick(nss[:1+rng.IntN(2)]), Data: fmt.Sprintf("d%d", rng.IntN(1000)),
 				Vsn: pick([]string{"read", "read", "read", "stale", "empty", "bogus"}), UID: pick([]string{"read", "read", "read", "new", "wrong"})}
@@ -427,6 +450,10 @@ func (World) execute(p *Plan, r *simkit.Run) *simkit.Violation {
 				delete(model, k)
 				r.Hit("probe.delete-ok")
 			}
+		case "par":
+			if v := runPar(s, store, h, model, &uidN, r, mk); v != nil {
+				return v
+			}
 		case "list":
 			ten := tenancy(s.NS)
 			if s.NS == "*" {
@@ -730,4 +757,215 @@ type handleAdapter struct{ *handle }
 
 func (handleAdapter) DialLeader() (*grpc.ClientConn, error) {
 	return nil, errors.New("simulated leader does not dial itself")
+}
+
+
+// ---- concurrent operations under a decided schedule
+
+type parTask struct {
+	s                Step
+	k                string
+	uid, vsn, newVsn string
+	err              error
+	done, lockWait   bool
+	resume           chan struct{}
+	state            chan string
+}
+
+// refApply is the sequential reference of one store operation on a copy of the model.
+func refApply(model map[string]*mres, t *parTask) error {
+	m := model[t.k]
+	if t.s.Op == "write" {
+		switch {
+		case m == nil && t.vsn != "":
+			return storage.ErrCASFailure
+		case m != nil && m.uid != t.uid:
+			return storage.ErrWrongUid
+		case m != nil && m.version != t.vsn:
+			return storage.ErrCASFailure
+		}
+		model[t.k] = &mres{uid: t.uid, version: t.newVsn, data: t.s.Data}
+		return nil
+	}
+	switch {
+	case m == nil || m.uid != t.uid:
+		return nil
+	case m.version != t.vsn:
+		return storage.ErrCASFailure
+	}
+	delete(model, t.k)
+	return nil
+}
+
+func permutations(n int) [][]int {
+	if n == 1 {
+		return [][]int{{0}}
+	}
+	var out [][]int
+	for _, p := range permutations(n - 1) {
+		for i := 0; i <= len(p); i++ {
+			q := append(append(append([]int{}, p[:i]...), n-1), p[i:]...)
+			out = append(out, q)
+		}
+	}
+	return out
+}
+
+// runPar runs the operations of one par step as goroutines that only move when the schedule says so,
+// then requires the outcome (verdicts and stored state) to equal that of some sequential order.
+func runPar(s Step, store *inmem.Store, h *handle, model map[string]*mres, uidN *int, r *simkit.Run, mk func(class, inv, detail string) *simkit.Violation) *simkit.Violation {
+	var tasks []*parTask
+	for _, ps := range s.Par {
+		t := &parTask{s: ps, k: key(ps.Name, ps.NS), resume: make(chan struct{}), state: make(chan string)}
+		h.next++
+		t.newVsn = strconv.Itoa(int(h.next))
+		if m := model[t.k]; m != nil {
+			t.uid, t.vsn = m.uid, m.version
+		}
+		switch ps.Vsn {
+		case "empty":
+			t.vsn = ""
+		case "stale":
+			t.vsn = "3"
+		case "peer":
+			// presents the version an earlier operation of this step is about to write
+			for _, o := range tasks {
+				if o.s.Op == "write" && o.k == t.k {
+					t.vsn, t.uid = o.newVsn, o.uid
+				}
+			}
+		}
+		if ps.Op == "write" && (ps.UID == "new" || t.uid == "") {
+			*uidN++
+			t.uid = fmt.Sprintf("uid-%d", *uidN)
+		}
+		tasks = append(tasks, t)
+	}
+	if len(tasks) == 0 {
+		return nil
+	}
+	var current *parTask
+	inmem.VerifYield = func(point string) {
+		t := current
+		t.state <- point
+		<-t.resume
+	}
+	defer func() { inmem.VerifYield = nil }()
+	for _, t := range tasks {
+		t := t
+		go func() {
+			<-t.resume
+			if t.s.Op == "write" {
+				res := &pbresource.Resource{Id: rid(t.s.Name, t.s.NS, t.uid), Version: t.newVsn, Data: mustAny(t.s.Data)}
+				t.err = store.WriteCAS(res, t.vsn)
+			} else {
+				t.err = store.DeleteCAS(rid(t.s.Name, t.s.NS, t.uid), t.vsn)
+			}
+			t.state <- "done"
+		}()
+	}
+	var trace []string
+	for step := 0; ; step++ {
+		var cand []int
+		for i, t := range tasks {
+			if !t.done && !t.lockWait {
+				cand = append(cand, i)
+			}
+		}
+		if len(cand) == 0 {
+			// only lock waiters are left: they may try again
+			for i, t := range tasks {
+				if !t.done {
+					cand = append(cand, i)
+				}
+			}
+			if len(cand) == 0 {
+				break
+			}
+			if step > 200 {
+				return mk("not-linearizable", "concurrent-operations-finish", fmt.Sprintf("operations wait for the event lock for ever; schedule %v", trace))
+			}
+		}
+		pick := cand[0]
+		if len(s.Sched) > 0 {
+			pick = cand[s.Sched[step%len(s.Sched)]%len(cand)]
+		}
+		t := tasks[pick]
+		current = t
+		t.resume <- struct{}{}
+		st := <-t.state
+		trace = append(trace, fmt.Sprintf("%d:%s", pick, st))
+		switch st {
+		case "done":
+			t.done = true
+			// whoever waited for the lock may find it free now
+			for _, o := range tasks {
+				o.lockWait = false
+			}
+		case "lock-wait":
+			t.lockWait = true
+			r.Hit("probe.par-waited-for-event-lock")
+		case "committed":
+			r.Hit("probe.par-parked-between-commit-and-publish")
+		}
+	}
+	r.Eventf("par %v", trace)
+	r.Sig("par:" + strings.Join(trace, ","))
+	r.Hit("probe.par-steps")
+	// some sequential order must explain verdicts and stored state
+	keys := map[string]bool{}
+	for _, t := range tasks {
+		keys[t.k] = true
+	}
+	stored := func(k string) string {
+		parts := strings.SplitN(k, "/", 2)
+		got, err := store.Read(rid(parts[1], parts[0], ""))
+		if err != nil {
+			return "-"
+		}
+		return got.Id.Uid + "@" + got.Version + ":" + dataOf(got)
+	}
+	var verdicts []string
+	for i, t := range tasks {
+		verdicts = append(verdicts, fmt.Sprintf("%d:%s %s uid=%s presents=%q -> %v", i, t.s.Op, t.k, t.uid, t.vsn, t.err))
+	}
+	for _, order := range permutations(len(tasks)) {
+		cp := map[string]*mres{}
+		for k, m := range model {
+			c := *m
+			cp[k] = &c
+		}
+		ok := true
+		for _, i := range order {
+			if !sameErr(tasks[i].err, refApply(cp, tasks[i])) {
+				ok = false
+				break
+			}
+		}
+		for k := range keys {
+			want := "-"
+			if m := cp[k]; m != nil {
+				want = m.uid + "@" + m.version + ":" + m.data
+			}
+			if ok && stored(k) != want {
+				ok = false
+			}
+		}
+		if ok {
+			for k := range keys {
+				if m := cp[k]; m != nil {
+					model[k] = m
+				} else {
+					delete(model, k)
+				}
+			}
+			return nil
+		}
+	}
+	var st []string
+	for _, k := range simkit.SortedKeys(keys) {
+		st = append(st, k+"="+stored(k))
+	}
+	return mk("not-linearizable", "concurrent-outcome-equals-some-sequential-order",
+		fmt.Sprintf("schedule %v\n  verdicts %v\n  stored %v\n  no order of the operations gives these verdicts and this state", trace, verdicts, st))
 }
